@@ -203,6 +203,12 @@ def ret_cases(tier, seed):
             for j in range(i + 1, k):
                 if corr[i][j] != 0:
                     x, y = (ids[i], ids[j]) if rng.random() < 0.5 else (ids[j], ids[i])    # a pair may be named in either order
+                    if rng.random() < 0.5:
+                        # earlier settings of the same pair, in both orientations: the LAST setting is the one in force
+                        f.set_correlation(x, y, 0.125)
+                        f.set_correlation(y, x, -0.25)
+                        if rng.random() < 0.5:
+                            x, y = y, x
                     f.set_correlation(x, y, corr[i][j] / float(den * den))
         f._np_prng = _StubNp(zs)
         steps = len(zs) * 2
@@ -237,6 +243,55 @@ def ret_cases(tier, seed):
             obs2 = [[int(round(math.log(prices2[i][s + 1] / prices2[i][s]) * 1e6)) for i in range(k)] for s in range(steps)]
             out.append({"c": "ret", "den": den, "rows": rows, "corr": corr, "vols": vols2, "drifts": drifts2,
                         "zs": [zs[(c0 + s) % len(zs)] for s in range(steps)], "obs": obs2})
+    return out
+
+
+def late_cases(tier, seed):
+    """rarely used entry points: a market whose walk starts late (add_market(start_at=s)) holds its initial value up to s
+    and walks from there; a market configured through the runner with a drift but no volatility follows the closed form"""
+    rng = random.Random(sub_seed(seed, "late"))
+    out = []
+    for _ in range(12 if tier == "quick" else 200):
+        sim = Simulator(prng=random.Random(rng.randrange(2 ** 30)))
+        f = sim.fundamentals
+        f.add_market(market_id=0, initial=100.0, drift=0.0, volatility=rng.choice([0.0, 0.01]))
+        s0 = rng.choice([1, 2, 5, 40, 99, 100, 101, 150])
+        d = rng.choice([0.0, 0.001, -0.002])
+        zero = rng.random() < 0.6
+        init = float(rng.choice([50.0, 300.0]))
+        try:
+            f.add_market(market_id=1, initial=init, drift=d, volatility=0.0 if zero else 0.02, start_at=s0)
+            ps = f.get_fundamental_prices(market_id=1, times=range(0, s0 + 30))
+            p0 = f.get_fundamental_prices(market_id=0, times=range(0, s0 + 30))
+        except Exception as ex:  # noqa: BLE001
+            out.append({"c": "stat", "what": "late-start-raised-" + type(ex).__name__, "ok": False})
+            continue
+        out.append({"c": "stat", "what": "late-start-holds-initial-value-until-its-start", "ok": bool(all(x == init for x in ps[:s0 + 1]))})
+        out.append({"c": "stat", "what": "late-start-positive", "ok": bool(all(x > 0 for x in ps) and all(x > 0 for x in p0))})
+        if zero:
+            ok = all(abs(ps[s0 + j] - init * math.exp(d * j)) <= 1e-9 * init for j in range(30))
+            out.append({"c": "stat", "what": "late-start-closed-form", "ok": bool(ok)})
+    # through the runner: every combination of fundamentalDrift / fundamentalVolatility being configured
+    from pams.runners.sequential import SequentialRunner
+    for has_d, has_v in ((True, False), (False, True), (True, True), (False, False)):
+        mk = {"class": "Market", "tickSize": 0.01, "marketPrice": 200.0}
+        if has_d:
+            mk["fundamentalDrift"] = 0.001
+        if has_v:
+            mk["fundamentalVolatility"] = 0.0
+        cfg = {"simulation": {"markets": ["M"], "agents": [], "sessions": [
+            {"sessionName": 0, "iterationSteps": 3, "withOrderPlacement": True, "withOrderExecution": True, "withPrint": False}]}, "M": mk}
+        try:
+            with warnings.catch_warnings():
+                warnings.simplefilter("ignore")
+                r = SequentialRunner(settings=cfg, prng=random.Random(3))
+                r._setup()
+            ps = r.simulator.fundamentals.get_fundamental_prices(market_id=0, times=range(0, 12))
+            dd = 0.001 if has_d else 0.0
+            ok = all(abs(ps[j] - 200.0 * math.exp(dd * j)) <= 1e-9 * 200.0 for j in range(12))
+            out.append({"c": "stat", "what": "runner-drift%d-volatility%d-closed-form" % (has_d, has_v), "ok": bool(ok)})
+        except Exception as ex:  # noqa: BLE001
+            out.append({"c": "stat", "what": "runner-setup-raised-" + type(ex).__name__, "ok": False})
     return out
 
 
@@ -284,4 +339,5 @@ def all_lines(tier, seed):
     for i in range(0, len(rc), 50):
         lines.append({"mode": "cases", "cs": rc[i:i + 50], "kind": "ret"})
     lines.append({"mode": "cases", "cs": stat_cases(tier, seed), "kind": "stat"})
+    lines.append({"mode": "cases", "cs": late_cases(tier, seed), "kind": "late"})
     return lines
